@@ -66,7 +66,7 @@ func runDetMarshal(c *simrun.Ctx) *simrun.Violation {
 	proto0 := pickType(t)
 	mt := proto0.ProtoReflect().Type()
 	md := mt.Descriptor()
-	cfg := simval.GenCfg{MaxDepth: 1 + t.Draw("maxdepth", 3), MaxFields: 1 + t.Draw("maxfields", 6), MaxMapEntries: 2 + t.Draw("maxentries", 8), MaxListLen: 1 + t.Draw("maxlist", 3), AnyTargets: anyTargets(), InvalidUTF8: t.Chance("allow-invalid-utf8", 1, 5)}
+	cfg := simval.GenCfg{MaxDepth: 1 + t.Draw("maxdepth", 3), MaxFields: 1 + t.Draw("maxfields", 6), MaxMapEntries: 2 + t.Draw("maxentries", 8), MaxListLen: 1 + t.Draw("maxlist", 3), AnyTargets: anyTargets(), InvalidUTF8: t.Chance("allow-invalid-utf8", 1, 5), Huge: t.Chance("allow-huge", 1, 12)}
 	av := simval.Gen(t, md, cfg)
 	canon := simval.Canon(av)
 	pr := simval.ProbeValue(av)
